@@ -7,9 +7,34 @@ LEVEL = 'model_checking'
 def run(tier, seed):
     jobs = catalog.jobs_for('C11', tier, seed)
     cov, viol = common.run_catalogue(jobs, tier, 'C11')
+    # the deferred queue itself: data re-delivered by a retried request while the first copy is still
+    # waiting must not be held twice (BFS over delivery histories on the real DeferQueue, see C16)
+    import time
+    from . import C16
+    t0 = time.time()
+    parts = {}
+    for P, L, sizes, mr, depth in ([(2, 3, (1, 2, 3), 1, 10), (3, 3, (1, 2), 1, 9)] if tier == 'quick'
+                                   else [(2, 3, (1, 2, 3), 2, 13), (2, 4, (1, 2, 3), 2, 12), (3, 3, (1, 2), 2, 11)]):
+        r = C16.defer_bfs(P, L, sizes, mr, depth, deadline=t0 + (60 if tier == 'quick' else 600))
+        parts[f'defer queue P={P} L={L} sizes={sizes} restarts<={mr}'] = {
+            'states': r.states, 'transitions': r.transitions, 'depth': r.depth_completed, 'caps_hit': r.caps_hit}
+        cov['states'] += r.states
+        cov['transitions'] += r.transitions
+        cov['evaluations'] = cov.get('evaluations', 0) + r.transitions
+        cov['caps_hit'] = list(cov.get('caps_hit', [])) + list(r.caps_hit)
+        for v in r.violations:
+            if v['sig'].startswith('C11'):
+                viol.append({'sig': v['sig'], 'msg': v['msg'] + f' P={P} L={L} history={v["history"]}',
+                             'replay': {'kind': 'defer', 'P': P, 'L': L, 'history': v['history']}})
+    cov['deferred_queue_bfs'] = parts
+    cov['exhaustive'] = not cov['caps_hit']
     return {'coverage': cov, 'violations': viol, 'level': LEVEL,
             'assumptions': common.ASSUMPTIONS}
 
 
 def replay(data):
+    if data.get('kind') == 'defer':
+        from . import C16
+        errs = [e for e in C16.run_history(data['P'], data['L'], data['history']) if e[0].startswith('C11')]
+        return {'violations': errs, 'digest': repr(errs)}
     return common.replay_manager(data)
